@@ -8,7 +8,7 @@ namespace Cobweb.Sc
 def toks (line : String) : List String := (line.trimAscii.toString.splitOn " ").filter (· ≠ "")
 
 def parseKind : String → Option SKind
-  | "f" => some .f | "n" => some .n | "s" => some .s | "o" => some .o | _ => none
+  | "f" => some .f | "n" => some .n | "s" => some .s | "o" => some .o | "m" => some .m | _ => none
 
 def parseCall : List String → Option SCall
   | [k, key, x] => do pure { kind := ← parseKind k, key := ← key.toNat?, input := ← x.toNat? }
@@ -19,6 +19,8 @@ def parseOp : List String → Option SOp
   | "d" :: r => (parseCall r).map .d
   | ["w", v] => v.toNat?.map .w
   | ["x", v] => v.toNat?.map .x
+  | ["g", v] => v.toNat?.map .g
+  | ["v", v] => v.toNat?.map .v
   | _ => none
 
 structure SDef where
@@ -68,6 +70,8 @@ def parseLines : Nat → List String → SScenario → Option SScenario
     | ["top", "spawn", d] => do parseLines fuel ls { sc with tops := sc.tops ++ [.spawn (← d.toNat?)] }
     | ["top", "despawn", d] => do parseLines fuel ls { sc with tops := sc.tops ++ [.despawn (← d.toNat?)] }
     | "top" :: "call" :: r => do parseLines fuel ls { sc with tops := sc.tops ++ [.call (← parseCall r)] }
+    | ["top", "reg", k] => do parseLines fuel ls { sc with tops := sc.tops ++ [.reg (← k.toNat?)] }
+    | ["top", "revoke", k] => do parseLines fuel ls { sc with tops := sc.tops ++ [.revoke (← k.toNat?)] }
     | _ => none
 
 def parseSc (text : String) : Option SScenario :=
@@ -84,7 +88,7 @@ def SScenario.prog (sc : SScenario) : SProg where
     | some d => d.excl
     | none => false
 
-def showKind : SKind → String | .f => "f" | .n => "n" | .s => "s" | .o => "o"
+def showKind : SKind → String | .f => "f" | .n => "n" | .s => "s" | .o => "o" | .m => "m"
 
 def showEv : SEv → String
   | .enter k key run x => s!"sc enter {showKind k}{key} r{run} x{x}"
@@ -95,6 +99,8 @@ def showEv : SEv → String
   | .despawned id => s!"sc despawned s{id}"
   | .capped k key => s!"sc capped {showKind k}{key}"
   | .call k key => s!"sc call {showKind k}{key}"
+  | .registered key => s!"sc registered n{key}"
+  | .revoked key => s!"sc revoked n{key}"
 
 /-- Runs a whole scenario, returning the trace lines. -/
 def runScenario (sc : SScenario) : List String :=
